@@ -2,7 +2,7 @@ PLAN = dict(
     id="C13",
     level="exploration",
     build=["c13"],
-    mc=[dict(module="MC_Cast", cfg="MC_Cast.cfg", workers=4, timeout=1200)],
+    mc=[dict(module="MC_Cast", cfg="MC_Cast.cfg", workers=6, timeout=1800, args=["-coverage", "600"])],
     drive=[dict(bin="c13", args=["c13"])],
     tv=[
         dict(glob="cast-*.ndjson", module="Trace_Cast", cfg="Trace_Cast.cfg", corrupt=["e_strict", "s_out", "f_out", "fwd"],
